@@ -17,7 +17,7 @@ from .isoc import PKG
 
 
 def owner(clause):
-    return clause.startswith('outcome-class-')
+    return 'outcome-class-' in clause
 
 
 def plan(tier, seed):
@@ -246,7 +246,7 @@ def file_level(rep, wd, tier, seed):
     rep.extra['ipmreader_files'] = sum(len(g) for g in groups.values())
     rep.extra['tool_runs'] = sum(1 for g in groups.values() for t in g for e in t['events'] if e['op'] == 'tool')
     ipmc.validate(rep, wd, [(('pkg',), enc, ts) for enc, ts in groups.items()],
-                  lambda c: c.startswith('outcome-class-') or c.startswith('tool-did-not-return'), 'ipmfile', maxbatch=30)
+                  lambda c: 'outcome-class-' in c or c.startswith('tool-did-not-return'), 'ipmfile', maxbatch=30)
 
 
 def run(rep, wd, tier, seed):
